@@ -805,7 +805,9 @@ impl<'a> TypeEncoder<'a> {
 
         log::debug!("encoding {kind} import `{name}`", kind = kind.desc(self.0));
         let ty = kind.ty();
-        let index = self.ty(state, ty, Some(name));
+        // Only a type item can stand for a `use`d type of the same name; a function
+        // or instance that happens to share the name must not take its index.
+        let index = self.ty(state, ty, matches!(kind, ItemKind::Type(_)).then_some(name));
 
         match kind {
             ItemKind::Type(_) => {
@@ -945,7 +947,9 @@ impl<'a> TypeEncoder<'a> {
         );
 
         let ty = kind.ty();
-        let index = self.ty(state, ty, Some(name));
+        // Only a type item can stand for a `use`d type of the same name; a function
+        // or instance that happens to share the name must not take its index.
+        let index = self.ty(state, ty, matches!(kind, ItemKind::Type(_)).then_some(name));
         let instance_index = state.current.encodable.instance_count();
         let index = Self::export_type(
             state,
